@@ -196,7 +196,7 @@ func runSysPlug(x *X) {
 		rs := &respScript{}
 		ex.resp = rs
 		rs.status = []int{200, 200, 200, 201, 204, 304, 302, 404, 500, 206}[c.Intn(10, "status")]
-		ct := []string{"text/plain", "application/json", "application/octet-stream", "text/html; charset=utf-8", "image/png", ""}[c.Intn(6, "ctype")]
+		ct := []string{"text/plain", "application/json", "application/octet-stream", "text/html; charset=utf-8", "image/png", "", "text/event-stream", "Application/JSON; charset=UTF-8"}[c.Intn(8, "ctype")]
 		if largePlain {
 			rs.status, ct = 200, "application/json"
 		}
@@ -265,6 +265,16 @@ func runSysPlug(x *X) {
 			rs.hdr = filterHdr(rs.hdr, "Content-Encoding")
 		}
 		rs.framing = []string{"cl", "chunked", "cl"}[c.Intn(3, "framing")]
+		// interim responses pass through the plugins' writers before the final status does
+		if c.Intn(8, "interim") == 0 {
+			rs.interim = []int{103}
+			x.Probe("interim-response-through-plugins")
+		}
+		if len(ex.body) > 0 && (!wantSize || len(ex.body) <= L1) && c.Intn(5, "expect-continue") == 0 {
+			ex.expect = "accept"
+			ex.hdr = append(ex.hdr, hdrKV{"Expect", "100-continue"})
+			x.Probe("expect-continue-through-plugins")
+		}
 		if capCase && c.Intn(2, "cap-streamed") == 1 {
 			rs.framing = "chunked" // a streamed body has no declared length to fall back on
 		}
@@ -275,6 +285,11 @@ func runSysPlug(x *X) {
 			k := c.Intn(4, "nwrites")
 			for j := 0; j < k; j++ {
 				rs.steps = append(rs.steps, respStep{kind: "write", n: 1 + c.Intn(len(rs.body), "wsize")})
+				// a backend that streams (events, progress output) pauses between its writes: the proxy
+				// flushes what it has got so far through the plugins' writers
+				if ct == "text/event-stream" || c.Intn(6, "pause-between-writes") == 0 {
+					rs.steps = append(rs.steps, respStep{kind: "sleep", d: time.Duration(20+c.Intn(400, "pause-ms")) * time.Millisecond})
+				}
 			}
 		}
 		all = append(all, ex)
